@@ -121,6 +121,17 @@ func build(s *Sch) core.ZodSchema {
 	case "enum":
 		return gozod.EnumSlice(s.Strs)
 	case "lit":
+		mixed := false
+		for _, l := range s.Lits {
+			mixed = mixed || l.T != s.Lits[0].T
+		}
+		if mixed {
+			vs := make([]any, len(s.Lits))
+			for i, l := range s.Lits {
+				vs[i] = litValue(l)
+			}
+			return gozod.LiteralOf(vs)
+		}
 		switch s.Lits[0].T {
 		case "s":
 			vs := make([]string, len(s.Lits))
@@ -254,8 +265,10 @@ func numKind(cs []*Sch) string {
 		case "int":
 			return s.Kind
 		case "lit":
-			if s.Lits[0].T == "q" {
-				return "int"
+			for _, l := range s.Lits {
+				if l.T == "q" {
+					return "int"
+				}
 			}
 		}
 	}
